@@ -1,6 +1,7 @@
 /- `analyze` request: the whole analysis pipeline of the model, down to correction bytes. -/
 import Preflate.Driver.CodecWire
 import Preflate.Model.Chains
+import Preflate.Model.Estimator
 namespace Preflate.Driver
 open Preflate
 
@@ -36,5 +37,12 @@ def analyzeFullLine (toks : List String) : String :=
       | some p => outcome (analyzeModel p (unhex d)) fun (size, _, bytes) => s!"ok {size} {hex bytes.toList}"
       | none => "bad-request"
   | [] => "bad-request"
+
+/-- `estimate` request: the front part of the parameter estimator -/
+def estimateLine (d : List UInt8) : String :=
+  outcome (do
+    let parsed ← parse d
+    Est.front parsed.blocks) fun f =>
+      s!"ok {f.strategy} {f.huffStrategy} {f.windowBits} {f.maxTokenCount} {f.addPolicy} {f.addLimit}"
 
 end Preflate.Driver
